@@ -182,6 +182,25 @@ def run_case(case):
                 call_all()
         else:
             call_all()
+        # ---- the same object asked again after the process changed: it was
+        # re-parented, changed credentials, burned CPU, got a new name
+        got2 = {}
+        if case.get("second_read", True):
+            p.ppid = (case["ppid"] + 1) % (2**22)
+            p.uids = tuple((u + 1) % 2**32 for u in p.uids)
+            p.gids = tuple((g_ + 7) % 2**32 for g_ in p.gids)
+            p.utime = case["utime"] + 5
+            p.vctx = case["vctx"] + 3
+            p.processor = (case["processor"] + 1) % 4096
+            p.comm = b"renamed"
+            for t_ in p.thread_list():
+                if t_.tid == case["pid"]:
+                    t_.comm = b"renamed"
+            for m in ("ppid", "uids", "gids", "cpu_times", "num_ctx_switches", "cpu_num", "name"):
+                try:
+                    got2[m] = getattr(proc, m)()
+                except Exception as e:  # noqa: BLE001
+                    raise Violation(m, f"second {m}() raised {e!r}") from None
 
     def chk(m, ok, exp):
         if not ok:
@@ -225,6 +244,21 @@ def run_case(case):
         for g_, e in zip(got_thr, exp_thr))
     chk("threads", ok, [(e[0], f"{e[1]}/{CLK}", f"{e[2]}/{CLK}") for e in exp_thr])
 
+    if got2:
+        def chk2(m, ok, exp):
+            if not ok:
+                raise Violation(m, f"{m}() asked again on the same object after the process changed = "
+                                   f"{got2[m]!r}, kernel now says {exp!r} (first answer {got[m]!r})")
+        chk2("ppid", got2["ppid"] == (case["ppid"] + 1) % (2**22), (case["ppid"] + 1) % (2**22))
+        u2 = tuple((u + 1) % 2**32 for u in case["uids"])[:3]
+        chk2("uids", tuple(got2["uids"]) == u2, u2)
+        g2 = tuple((g_ + 7) % 2**32 for g_ in case["gids"])[:3]
+        chk2("gids", tuple(got2["gids"]) == g2, g2)
+        chk2("cpu_times", close(got2["cpu_times"].user, Fraction(case["utime"] + 5, CLK)),
+             f"{case['utime'] + 5}/{CLK}")
+        chk2("num_ctx_switches", got2["num_ctx_switches"].voluntary == case["vctx"] + 3, case["vctx"] + 3)
+        chk2("cpu_num", got2["cpu_num"] == (case["processor"] + 1) % 4096, (case["processor"] + 1) % 4096)
+        chk2("name", got2["name"] == "renamed", "renamed")
     f = features(case)
     labels = sorted(f) + ["oneshot" if case["oneshot"] else "plain",
                           "threads=%d" % min(nthr, 4),
